@@ -9,12 +9,19 @@ Ties (all against the current tree of REPO):
           (every event must be the enabled model transition, results and white-box table snapshots must agree);
           implementation-side monitors independent of the model: holder counters in the mapped value, element
           liveness, per-key linearizability of the history incl. initial/final contents, final table sanity, deadlock.
+  E-SHIM (refined)  the same runs at the level of EVERY atomic access: each access to a bucket / element lock word (load, CAS,
+          fetch_or/add/sub/and of the real spin_rw_mutex: values read and written, success), to my_mask / my_size / my_table and
+          to a bucket's node_list (flag and head values, memory orders) is replayed on the refined Lean model `HMapR`
+          (Model/C10R.lean, which instantiates C08's word-level lock model per lock); scenario families that force the
+          contended-upgrade re-search, the element try-lock give-up / restart, the mask race, erase against accessor holders
+          and growth across several segments; the statement skeletons of the transcribed functions are regenerated (c10gen.py)
 Failing-input search: more seeds, bounded-preemption DFS, shrinking of the scenario; replay(ck, obj) re-runs a schedule."""
 import json
 import os
 import re
 import time
 
+import c10gen
 import common
 from common import REPO, cxx_build, drv, gen_write, log, sh
 
@@ -32,7 +39,11 @@ def gen(ck):
         raise common.BuildError("consts harness failed rc=%d %s" % (rc, err[-500:]))
     c = json.loads(out)
     ck.extra["generated_constants"] = c
-    gen_write("C10", "".join("def %s : Nat := %d\n" % (k, v) for k, v in sorted(c.items())))
+    body, obl, sk = c10gen.generate(REPO)
+    ck.extra["generated_skeletons"] = {k: len(v) for k, v in sk.items()}
+    gen_write("C10", "".join("def %s : Nat := %d\n" % (k, v) for k, v in sorted(c.items())) + body)
+    for what, ok, det in obl:
+        ck.oblige("gen:" + what, "generated", ok, det)
     return c
 
 
@@ -113,9 +124,11 @@ def parse_runs(out):
     runs, cur = [], None
     for l in out.split("\n"):
         if l.startswith("run "):
-            cur = {"eff": [], "ev": [], "final": None, "mon": "", "sched": [], "h": []}
+            cur = {"eff": [], "ev": [], "rv": [], "final": None, "mon": "", "sched": [], "h": []}
         elif cur is None:
             continue
+        elif l.startswith("rv "):
+            cur["rv"].append(l)
         elif l.startswith("eff "):
             cur["eff"].append(l.split()[2:])
         elif l.startswith("ev "):
@@ -169,6 +182,44 @@ def replay_on_model(sc, runs, check_inv=False):
             tol += int(m.group(1))
         res.append(d)
     return res, tol
+
+
+def replay_on_refined(sc, runs, check_inv=False):
+    """Replays the access-level traces (`rv` lines) of `runs` on the refined Lean model HMapR.  Returns per run None or the
+    first disagreement, the number of tolerated loads, and per run the set of coverage tags reported by the driver."""
+    lines = ["reset", "inv %d" % (1 if check_inv else 0), "hash %s %d" % (sc["hash"][0], sc["hash"][1])]
+    if sc["pre"]:
+        lines.append("pre " + " ".join(str(k) for k in sc["pre"]))
+    lines.append("save")
+    spans = []
+    for r in runs:
+        a = len(lines)
+        lines.append("restore")
+        for p in r["eff"]:
+            lines.append("prog " + " ".join(p))
+        e0 = len(lines)
+        lines += ["ev" + l[2:] for l in r["rv"]]
+        lines += ["idle", "final"]
+        spans.append((a, e0, len(lines)))
+    out = drv("c10r", "\n".join(lines) + "\n", timeout=1800)
+    res, tol, covs = [], 0, []
+    for r, (a, e0, b) in zip(runs, spans):
+        d = None
+        for i in range(a, b):
+            o = out[i] if i < len(out) else "<no output>"
+            if "MISMATCH" in o or o.startswith("bad") or o == "<no output>":
+                d = "event %d `%s`: %s" % (i - e0, lines[i], o)
+                break
+        if d is None and r["final"] is not None and out[b - 1] != r["final"]:
+            d = "final contents: implementation `%s`, refined model `%s`" % (r["final"][:300], out[b - 1][:300])
+        m = re.search(r"tolerated=(\d+) cov=(\S*)", out[b - 2]) if b - 2 < len(out) else None
+        if m:
+            tol += int(m.group(1))
+            covs.append(set(x for x in m.group(2).split(",") if x))
+        else:
+            covs.append(set())
+        res.append(d)
+    return res, tol, covs
 
 
 OPS_PLAIN = ["i", "p", "c", "e"]
@@ -230,6 +281,57 @@ def corpus():
     ]
 
 
+BIG = [259] + list(range(1, 254))
+_FILL = [k for k in range(1000, 1400) if (k & 255) != 5]
+# 255 keys: the last insertion grows the table to 512 buckets; bucket 5 holds 517 -> 261 -> 5 (and 773 first with PRE_RH4),
+# bucket 261 is still flagged: 261 (and 773) move there, 517 and 5 stay
+PRE_RH3 = [5, 261, 517] + _FILL[:252]
+PRE_RH4 = [5, 773, 261, 517] + _FILL[:251]
+
+
+def families(tier):
+    """Hand-written scenario families that force the paths of the lock protocol the refined model adds (fixed seeds: the
+    coverage below does not depend on VERIF_SEED).  name -> (scenarios, coverage tags that the family must exhibit)"""
+    return {
+        "contended upgrade, re-search after the lock was dropped (lookup<insert>, internal_erase, rehash_bucket)": ([
+            {"hash": ("const", 7), "pre": [], "progs": [["i:1"], ["i:2"], ["i:1"]]},
+            {"hash": ("const", 7), "pre": [3], "progs": [["i:1", "e:3"], ["i:1", "c:3"], ["i:2"]]},
+            {"hash": ("const", 7), "pre": [1, 2], "progs": [["e:1"], ["e:2"], ["i:3"]]},
+            {"hash": ("id", 0), "pre": BIG, "progs": [["i:600", "fr:259"], ["e:3"], ["c:259", "i:515"]]},
+        ], ["upgrade-slow:TbbVerif.C10.Pc.upg", "upgrade-slow:TbbVerif.C10.Pc.eUpg", "upgrade-slow:TbbVerif.C10.Pc.rhUpg",
+            "research-found", "research-absent", "erase-research", "upgrade-inplace:TbbVerif.C10.Pc.upg"]),
+        "element try-lock fails under the bucket lock: retry, give up, release the bucket, restart": ([
+            {"hash": ("const", 7), "pre": [5], "progs": [["fw:5", "i:9", "r"], ["fw:5", "r"]]},
+            {"hash": ("const", 7), "pre": [5], "progs": [["fw:5", "c:9", "i:9"], ["fr:5", "r"], ["e:9"]]},
+            {"hash": ("id", 0), "pre": [5], "progs": [["fw:5", "i:261", "r"], ["fr:5", "r"]]},
+        ], ["elem-try-failed", "elem-giveup-restart"]),
+        "mask race: stale mask, check_mask_race / check_rehashing_collision, bucket_accessor try-lock outcomes": ([
+            {"hash": ("id", 0), "pre": BIG, "progs": [["c:259", "fr:259"], ["i:600", "c:259"]]},
+            {"hash": ("id", 0), "pre": BIG, "progs": [["c:259", "e:259"], ["i:600", "fr:259", "r"], ["i:515", "c:3"]]},
+            {"hash": ("id", 0), "pre": BIG, "progs": [["i:771"], ["i:600", "c:771"], ["e:259"]]},
+        ], ["mask-race-restart", "mask-race-not-rehashed", "mask-race-same-bucket", "mask-race-bucket-changed",
+            "try-failed-still-flagged", "try-failed-unflagged", "rehash"]),
+        "erase / erase-by-accessor against accessor holders": ([
+            {"hash": ("id", 0), "pre": [5], "progs": [["fw:5", "r"], ["e:5"], ["fr:5", "r"]]},
+            {"hash": ("id", 0), "pre": [5], "progs": [["fr:5", "x"], ["fr:5", "r"], ["fr:5", "r"]]},
+            {"hash": ("id", 0), "pre": [5], "progs": [["fw:5", "x"], ["e:5"], ["fr:5", "x"]]},
+        ], ["erase-waits-for-accessor", "exclude-waits-for-accessor", "upgrade-inplace:TbbVerif.C10.Pc.xUpg"]),
+        "lazy rehash scan (rehash_bucket) with a contended upgrade vs erase / insert / find on the parent bucket": ([
+            {"hash": ("id", 0), "pre": PRE_RH3, "progs": [["c:773"], ["e:517"]]},
+            {"hash": ("id", 0), "pre": PRE_RH3, "progs": [["fr:261", "r"], ["e:517"], ["c:5"]]},
+            {"hash": ("id", 0), "pre": PRE_RH3, "progs": [["i:773"], ["e:5"], ["i:1029"]]},
+            {"hash": ("id", 0), "pre": PRE_RH4, "progs": [["c:1285"], ["e:517", "i:517"], ["fr:5", "x"]]},
+        ], ["upgrade-slow:TbbVerif.C10.Pc.rhUpg", "rehash-rescan-after-contended-upgrade", "upgrade-inplace:TbbVerif.C10.Pc.rhUpg"]),
+        "growth across several segments (two mask publications in one run)": ([
+            {"hash": ("id", 0), "pre": list(range(0, 250)),
+             "progs": [["i:%d" % k for k in range(1000, 1135)], ["i:%d" % k for k in range(2000, 2135)]]},
+        ] + ([] if tier == "quick" else [
+            {"hash": ("mul", 3), "pre": list(range(0, 250)),
+             "progs": [["i:%d" % k for k in range(1000, 1095)], ["p:%d" % k for k in range(2000, 2095)], ["i:%d" % k for k in range(3000, 3095)]]}]),
+           ["growth-twice", "rehash-recursive"]),
+    }
+
+
 def classify(mon):
     m = mon.lower()
     if "deadlock" in m:
@@ -247,8 +349,10 @@ def classify(mon):
     return "monitor"
 
 
-def run_rand(exe, sc, seed, n, timeout=600):
-    rc, out, err = sh([exe, "rand", str(seed), str(n)], input=sc_text(sc), timeout=timeout)
+def run_rand(exe, sc, seed, n, timeout=600, mode="rand"):
+    """mode "rand": seeded random schedules; "guided": random + state-guided preemptions (after a rehash-scan step / after a
+    search found its node the running thread is preempted in favour of another one, see GuidedSchedule in hm.cpp)"""
+    rc, out, err = sh([exe, mode, str(seed), str(n)], input=sc_text(sc), timeout=timeout)
     runs = parse_runs(out)
     if rc not in (0, 1, 3, 4):
         runs.append({"eff": [], "ev": [], "final": None, "mon": "VIOLATION crash: harness rc=%d %s" % (rc, err[-200:].replace("\n", " ")), "sched": [], "h": []})
@@ -274,10 +378,11 @@ def find_failure(exe, sc, budget_s, seeds=6, nrand=150, dfs_runs=6000):
     """Looks for a schedule of scenario `sc` on which an implementation-side monitor fails."""
     t0 = time.time()
     for s in range(seeds):
-        rc, runs = run_rand(exe, sc, 7000 + s, nrand)
-        bad = [r for r in runs if r["mon"] != "ok"]
-        if bad:
-            return bad[0]
+        for mode in ("guided", "rand"):
+            rc, runs = run_rand(exe, sc, 7000 + s, nrand, mode=mode)
+            bad = [r for r in runs if r["mon"] != "ok"]
+            if bad:
+                return bad[0]
         if time.time() - t0 > budget_s:
             return None
     for bound in (2, 3):
@@ -325,66 +430,149 @@ def report(ck, sc, r, why):
     ck.counterexample(key, "%s — %s | scenario hash=%s pre=%s progs=%s | schedule %s" % (
         r["mon"], why, sc["hash"], sc["pre"] if len(sc["pre"]) < 16 else "%d keys" % len(sc["pre"]), sc["progs"], " ".join(r["sched"])),
         {"engine": "E-SHIM", "scenario": sc, "schedule": r["sched"], "monitor": r["mon"], "history": r.get("h", [])[:60],
-         "trace_tail": r.get("ev", [])[-60:]})
+         "trace_tail": r.get("ev", [])[-60:], "access_trace_tail": r.get("rv", [])[-80:]})
+
+
+def replay_both(sc, ok_runs, inv_small, k_big):
+    """abstract (critical-section level, HMap) and access-level (HMapR) replay of the same runs -> ([(run, diff)], tolerated, covs)"""
+    out, tol, covs = [], 0, []
+    for fn, tag in ((replay_on_model, "HMap"), (replay_on_refined, "HMapR")):
+        try:
+            if len(sc["pre"]) < 100 or os.environ.get("C10_INV") == "1":
+                r = fn(sc, ok_runs, check_inv=inv_small)
+                res, tl, cv = r[0], r[1], (r[2] if len(r) > 2 else None)
+            else:
+                # large tables: evaluating the invariants on every state is expensive; do it for a few runs per scenario
+                r1 = fn(sc, ok_runs[:k_big], check_inv=True) if k_big else ([], 0, [])
+                r2 = fn(sc, ok_runs[k_big:], check_inv=False)
+                res, tl = r1[0] + r2[0], r1[1] + r2[1]
+                cv = (r1[2] + r2[2]) if len(r2) > 2 else None
+        except common.BuildError as e:
+            res, tl, cv = ["model driver failed: %s" % str(e)[-300:]] * len(ok_runs), 0, None
+        tol += tl
+        if cv is not None:
+            covs = cv
+        for r, d in zip(ok_runs, res):
+            if d:
+                out.append((r, "%s: %s" % (tag, d)))
+    return out, tol, covs
 
 
 def shim(ck):
     exe = build_hm()
     quick = ck.tier == "quick"
     rng = ck.rng
-    scs = corpus() + [gen_scenario(rng, ck.tier) for _ in range(150 if quick else 700)]
-    nrand = 10 if quick else 20
+    scs = corpus() + [gen_scenario(rng, ck.tier) for _ in range(110 if quick else 250)]
+    nrand = 10 if quick else 14
     bad_corr, bad_mon = [], []
     nruns = tol = 0
+    nev = 0
+    cov_all = {}
     t0 = time.time()
     for si, sc in enumerate(scs):
-        rc, runs = run_rand(exe, sc, ck.seed * 100003 + si, nrand)
-        ok_runs = [r for r in runs if r["ev"]]
-        try:
-            if len(sc["pre"]) < 100 or os.environ.get("C10_INV") == "1":
-                res, tl = replay_on_model(sc, ok_runs, check_inv=True)
-            else:
-                # large tables: evaluating the invariant on every state is expensive; do it for a few runs per scenario
-                k = 0 if quick else 2
-                res, tl = replay_on_model(sc, ok_runs[:k], check_inv=True) if k else ([], 0)
-                res2, tl2 = replay_on_model(sc, ok_runs[k:], check_inv=False)
-                res, tl = res + res2, tl + tl2
-        except common.BuildError as e:
-            res, tl = ["model driver failed: %s" % str(e)[-300:]] * len(ok_runs), 0
+        rc, runs = run_rand(exe, sc, ck.seed * 100003 + si, nrand - nrand // 3)
+        rc2, runs2 = run_rand(exe, sc, ck.seed * 100003 + si, nrand // 3, mode="guided")
+        runs = runs + runs2
+        ok_runs = [r for r in runs if r["ev"] and "DEADLOCK" not in r["mon"] and "crash" not in r["mon"] and len(r["rv"]) < 60000]
+        diffs, tl, covs = replay_both(sc, ok_runs, True, 0 if (quick or si >= 80) else 1)
         tol += tl
-        for r, d in zip(ok_runs, res):
+        for c in covs:
+            for x in c:
+                cov_all[x] = cov_all.get(x, 0) + 1
+        for r in ok_runs:
             nruns += 1
+            nev += len(r["rv"])
             ck.traces_validated += 1
             labels = tuple(sorted(set(e.split()[2] for e in r["ev"])))
             ck.count(1, (sc["hash"][0], len(sc["progs"]), len(sc["pre"]) > 100, labels, tuple(h.split()[2] + h.split()[4] for h in r["h"])))
-            if d and r["mon"] == "ok" or (d and "DEADLOCK" not in r["mon"] and "crash" not in r["mon"]):
+        for r, d in diffs:
+            if r["mon"] == "ok" or ("DEADLOCK" not in r["mon"] and "crash" not in r["mon"]):
                 bad_corr.append((sc, r, d))
         for r in runs:
             if r["mon"] != "ok":
                 bad_mon.append((sc, r))
         if si < 3 and ok_runs:
             ck.sample({"scenario": sc if len(sc["pre"]) < 20 else dict(sc, pre="%d keys" % len(sc["pre"])), "effective": ok_runs[0]["eff"],
-                       "trace_head": ok_runs[0]["ev"][:25], "history": ok_runs[0]["h"], "final": ok_runs[0]["final"]})
+                       "trace_head": ok_runs[0]["ev"][:25], "access_trace_head": ok_runs[0]["rv"][:40], "history": ok_runs[0]["h"],
+                       "final": ok_runs[0]["final"]})
     t_rand = time.time() - t0
+    # scenario families that force the paths of the lock protocol (fixed seeds), with coverage accounting
+    t0 = time.time()
+    fam_cov, fam_missing, fam_runs = {}, [], 0
+    for name, (fscs, want) in families(ck.tier).items():
+        got = {}
+        big = any(len(sc["progs"][0]) > 50 for sc in fscs)
+        rounds = 1
+        while True:
+            for fi, sc in enumerate(fscs):
+                n = (2 if quick else 4) if big else (40 if quick else 100)
+                rc, runs = run_rand(exe, sc, 4242 + 1000 * rounds + fi, n - n // 3)
+                if not big:
+                    rc2, runs2 = run_rand(exe, sc, 4242 + 1000 * rounds + fi, n // 3, mode="guided")
+                    runs = runs + runs2
+                ok_runs = [r for r in runs if r["ev"] and "DEADLOCK" not in r["mon"] and "crash" not in r["mon"] and len(r["rv"]) < 60000]
+                diffs, tl, covs = replay_both(sc, ok_runs, rounds == 1, 0)
+                tol += tl
+                for r, c in zip(ok_runs, covs):
+                    fam_runs += 1
+                    ck.traces_validated += 1
+                    nev += len(r["rv"])
+                    if sum(1 for l in r["rv"] if " stmask " in l) >= 2:
+                        c = set(c) | {"growth-twice"}
+                    for x in c:
+                        got[x] = got.get(x, 0) + 1
+                    ck.count(1, ("family", name[:20], tuple(sorted(c))))
+                for r, d in diffs:
+                    if r["mon"] == "ok" or ("DEADLOCK" not in r["mon"] and "crash" not in r["mon"]):
+                        bad_corr.append((sc, r, d))
+                for r in runs:
+                    if r["mon"] != "ok":
+                        bad_mon.append((sc, r))
+            miss = [w for w in want if not got.get(w)]
+            if not miss or rounds >= 4 or bad_corr or bad_mon:
+                break
+            rounds += 1                      # a path not yet seen: more schedules before saying the family no longer reaches it
+        fam_cov[name] = {w: got.get(w, 0) for w in want}
+        for w in miss:
+            fam_missing.append("%s: `%s`" % (name, w))
+        for x, v in got.items():
+            cov_all[x] = cov_all.get(x, 0) + v
+    t_fam = time.time() - t0
     # bounded-preemption exhaustive exploration of the hand-written scenarios (implementation-side monitors only)
     dfs_total = 0
     t0 = time.time()
-    for sc in corpus():
-        n, bad = run_dfs(exe, sc, 2 if quick else 3, 2500 if quick else 60000)
+    fam_dfs = [sc for (fscs, _) in families(ck.tier).values() for sc in (fscs[:1] if quick else fscs) if len(sc["progs"][0]) < 50]
+    dfs_scs = corpus() + [sc for sc in fam_dfs if sc not in corpus()]
+    for sc in dfs_scs:
+        n, bad = run_dfs(exe, sc, 2 if quick else 3, (2500 if sc in corpus() else 600) if quick else (40000 if sc in corpus() else 10000))
         dfs_total += n
         for r in bad:
             bad_mon.append((sc, r))
     t_dfs = time.time() - t0
     ck.evaluations += dfs_total
-    ck.extra["schedules"] = {"scenarios": len(scs), "random_runs_replayed_on_model": nruns, "dfs_runs_monitored": dfs_total,
-                             "tolerated_unmatched_loads": tol, "rand_s": round(t_rand, 1), "dfs_s": round(t_dfs, 1)}
+    ck.extra["schedules"] = {"scenarios": len(scs), "random_runs_replayed_on_both_models": nruns, "family_runs_replayed_on_both_models": fam_runs,
+                             "accesses_replayed_on_HMapR": nev, "dfs_runs_monitored": dfs_total,
+                             "tolerated_unmatched_loads": tol, "rand_s": round(t_rand, 1), "families_s": round(t_fam, 1), "dfs_s": round(t_dfs, 1)}
+    ck.extra["family_coverage"] = fam_cov
+    ck.extra["path_coverage_all_runs"] = dict(sorted(cov_all.items()))
+    hm = [x for x in bad_corr if x[2].startswith("HMap:")]
+    hr = [x for x in bad_corr if x[2].startswith("HMapR:")]
+
+    def det(lst):
+        return "" if not lst else "%s | hash=%s pre=%s progs=%s | sched %s" % (
+            lst[0][2], lst[0][0]["hash"], lst[0][0]["pre"][:12], [p[:8] for p in lst[0][0]["progs"]], " ".join(lst[0][1]["sched"][:4000]))
     ck.oblige("corr:critical-section event trace of the real concurrent_hash_map replays on HMap (every event an enabled model transition, "
-              "same results, same table snapshots, same final contents)", "correspondence", not bad_corr,
-              "" if not bad_corr else "%s | hash=%s pre=%s progs=%s | sched %s" % (
-                  bad_corr[0][2], bad_corr[0][0]["hash"], bad_corr[0][0]["pre"][:12], bad_corr[0][0]["progs"], " ".join(bad_corr[0][1]["sched"])))
+              "same results, same table snapshots, same final contents)", "correspondence", not hm, det(hm))
+    ck.oblige("corr:access-level trace of the real concurrent_hash_map with the real spin_rw_mutex replays on HMapR (every lock-word access of "
+              "bucket and element mutexes with values read/written, node_list flag/head values, my_mask, my_size, my_table accesses, memory orders "
+              "of the publishing accesses, results, snapshots, final contents; coupling invariant evaluated on the replayed states)",
+              "correspondence", not hr, det(hr))
+    ck.oblige("cover:the scenario families reach the lock-protocol paths they are written for (contended upgrade with re-search, element "
+              "try-lock failure / give-up / restart, mask race and rehash collision, erase against accessor holders, growth across segments)",
+              "correspondence", not fam_missing or bool(bad_corr) or bool(bad_mon), "; ".join(fam_missing))
     ck.oblige("monitor:accessor exclusion, element liveness, per-key linearizability incl. initial/final contents, no key lost or duplicated, "
               "no deadlock, no fault (random schedules + bounded-preemption DFS)", "correspondence", not bad_mon,
-              "" if not bad_mon else "%s | hash=%s pre=%s progs=%s" % (bad_mon[0][1]["mon"][:600], bad_mon[0][0]["hash"], bad_mon[0][0]["pre"][:12], bad_mon[0][0]["progs"]))
+              "" if not bad_mon else "%s | hash=%s pre=%s progs=%s" % (bad_mon[0][1]["mon"][:600], bad_mon[0][0]["hash"], bad_mon[0][0]["pre"][:12], [p[:8] for p in bad_mon[0][0]["progs"]]))
     return exe, scs, bad_corr, bad_mon
 
 
@@ -422,29 +610,48 @@ def run(ck):
     ck.rule = ("E-SHIM: 10 hand-written contention scenarios + seeded random scenarios (2-4 threads x 2-5 ops of insert/emplace/find/count/"
                "erase/erase-by-accessor/release with no/const/writer accessors; key universes colliding in the low hash bits (k, k+2, k+256, "
                "k+512...); hashers identity / constant / shift-left / multiplicative / fold; pre-population 0-4 keys or sizes straddling the "
-               "growth thresholds 255/511(/1023)), each under seeded random schedules and replayed on the Lean model; bounded-preemption DFS "
-               "of the hand-written scenarios with the implementation-side monitors.  E-PURE: all indices < 4096, 2^k-1/2^k/2^k+1, random "
-               "64-bit; check_rehashing_collision on random (h, old mask, new mask, flagged bucket).  distinct = (hasher, #threads, "
-               "big table?, event kinds seen, op kinds+results) classes")
+               "growth thresholds 255/511(/1023)), each under seeded random AND state-guided schedules (a thread is preempted right after a "
+               "rehash-scan step / after its search found its node, in favour of another thread that then runs on), replayed on BOTH Lean "
+               "models: critical-section events on HMap, every atomic access (lock words with values, node_list, my_mask, my_size, my_table) on "
+               "HMapR; six hand-written scenario families with fixed seeds and path-coverage accounting (contended upgrade + re-search for "
+               "lookup<insert> / internal_erase / rehash_bucket, element try-lock failure + give-up + restart, mask race / rehash collision / "
+               "bucket_accessor try-lock outcomes, erase and erase-by-accessor against accessor holders, lazy rehash scan vs erase/insert/find on "
+               "the parent bucket under a contended upgrade, growth across two segments in one run); bounded-preemption DFS of the hand-written "
+               "and family scenarios with the implementation-side monitors.  E-PURE: all indices < 4096, 2^k-1/2^k/2^k+1, random 64-bit; "
+               "check_rehashing_collision on random (h, old mask, new mask, flagged bucket).  distinct = (hasher, #threads, big table?, event "
+               "kinds seen, op kinds+results) classes, resp. (family, paths taken)")
     ck.assumptions += [
-        "partial: bucket and element locks are spin_rw_mutex whose protocol is proved in C08; HMap models a lock by its C08 specification state "
-        "(writer / readers) and each lock operation as one step (critical sections atomic by appeal to C08, a failed upgrade is a release + "
-        "re-acquire point); the theorems are over that abstraction, not over the raw atomics of the lock word",
-        "proved on the model for any number of threads, all schedules (incl. every try-lock failure / upgrade / give-up alternative), any "
-        "hash function: key_home, lookup_finds, linearizability of insert/emplace/find/count/erase/erase-by-accessor with named "
-        "linearization points, one-winner corollaries, accessor exclusion and safe deletion, bucket-lock exclusion, growth election "
-        "(Props/C10.lean, none of them _partial); sequentially consistent interleavings (the shim serialises accesses; release/acquire "
-        "visibility of node contents is not modelled)",
-        "the inductive invariant used by the proofs (Proofs/C10/Inv.lean, Inv2.lean) is additionally evaluated by the model driver on every "
-        "state of the replayed traces for small tables, and for a sample of the runs on large tables in the thorough tier",
-        "the correspondence model <-> implementation is sampled (explored scenarios and schedules), not proved",
+        "the lock abstraction of HMap is discharged: HMapR (Model/C10R.lean) carries, per bucket and per element, the state word and the per-thread "
+        "protocol state of C08's word-level spin_rw_mutex model and steps it with C08.step (instantiated, nothing about the mutex assumed); "
+        "Proofs/C10/R*.lean prove the coupling invariant (C08.Inv of every word; specification lock = C08 phases; no API misuse; flagged buckets) "
+        "for all reachable states, any number of threads / programs / schedules / hash function, and that HMapR refines HMap step by step, so "
+        "every HMap theorem holds for HMapR",
+        "proved: key_home, rehash split (also after a contended upgrade: hmap_rehash_restart), lookup_finds, linearizability with named "
+        "linearization points, one-winner corollaries, accessor exclusion and safe deletion (hmap_erase_waits_for_accessors at word level), "
+        "bucket-lock exclusion, growth election, upgrade re-search, mask-race safety of negative results, exactness of my_size, lock order "
+        "(Props/C10.lean; one _partial: hmap_no_deadlock_lock_order_partial proves the lock order / no cyclic wait across different locks, "
+        "the progress of several threads blocked on ONE word is C08's no-lost-grant and is covered here by the E-SHIM deadlock monitor); "
+        "sequentially consistent interleavings (the shim serialises accesses; release/acquire visibility of node contents is not modelled, "
+        "the memory orders of the publishing accesses are compared with the required ones on every replayed access)",
+        "the code under a bucket lock between two atomic accesses (chain search, unlink, the node moves of rehash_bucket) is one model step; "
+        "node_list head values read/written under the lock are compared with the model chain at reader loads and at the writer's release",
+        "the inductive invariants used by the proofs (Proofs/C10/Inv.lean, Inv2.lean; coupling: Proofs/C10/RInv.lean) are additionally evaluated by "
+        "the model drivers on every state of the replayed traces for small tables, and for a sample of the runs on large tables in the thorough tier",
+        "the correspondence model <-> implementation is sampled (explored scenarios and schedules), not proved; statement skeletons of the "
+        "transcribed functions are regenerated and pinned (generated_lock_skeletons), so an edit of their bodies is flagged even when no "
+        "explored schedule exhibits a difference",
+        "the call of a lock operation is a separate, purely local model step (it records the operation in the thread's own slot)",
         "not modelled: rehash(), clear(), swap, copy/move, iterators and ranges (not concurrency-safe by contract), internal_fast_find, "
-        "allocation failure / exceptions, the mapped value's own thread safety, backoff timing",
+        "allocation failure / exceptions, the mapped value's own thread safety, backoff timing (the number of element try-lock retries before "
+        "the give-up is a free choice of the schedule in the model), rtm / other MutexType instantiations",
         "values are immutable in the model (the mapped value is only used for the holder bookkeeping of the monitors)",
         "weak CAS never fails spuriously under the shim"]
-    ck.trusted += ["harness/shim (atomic shim + baton scheduler)", "harness/c10/hm.cpp: abstraction of the atomic-access log to critical-section events "
-                   "(lock-word outcome recognition, node ids by linking order), holder / liveness / linearizability monitors",
-                   "harness/c10/pure.cpp, harness/c10/consts.cpp", "trace replay in checks/c10.py + Model/C10.lean driver (sampled correspondence)"]
+    ck.trusted += ["harness/shim (atomic shim + baton scheduler)", "harness/c10/hm.cpp: canonicalisation of the atomic-access log (which address is which "
+                   "lock word / node_list / table word, node ids by linking order), abstraction to critical-section events for HMap, guided "
+                   "schedule, holder / liveness / linearizability monitors",
+                   "harness/c10/pure.cpp, harness/c10/consts.cpp, checks/c10gen.py (statement skeletons)",
+                   "trace replay in checks/c10.py + Model/C10.lean, Model/C10RD.lean drivers (sampled correspondence; `compact` / `compactR` "
+                   "materialise function-valued state, extensionally the identity)"]
     c = gen(ck)
     ck.oblige("gen:load-factor rule observed on the real table (growth when size reaches the mask; masks 2^firstBlock-1, then doubling)", "generated",
               c["growAt0"] == c["initialMask"] and c["growAt1"] == c["maskAfter0"] and c["growAt2"] == c["maskAfter1"],
